@@ -184,6 +184,9 @@ func (p *Pipe) SetMode(mode int, err error) {
 	p.mu.Unlock()
 }
 
+// Mode returns the current send mode.
+func (p *Pipe) Mode() int { p.mu.Lock(); defer p.mu.Unlock(); return p.mode }
+
 // Blocked returns the number of Send calls currently blocked in ModeBlock.
 func (p *Pipe) Blocked() int { p.mu.Lock(); defer p.mu.Unlock(); return p.blocked }
 
